@@ -342,8 +342,34 @@ def r14c(ctx, classes):
                 if 'any(' in s and 'logical_or' in s:
                     guards.add(f'overflow={v}')
         f['selection'] = ','.join(sorted(guards))
-        f['return'] = short(_gen(full[0].retval), 120)
+        f['return'] = ' | '.join(sorted({short(_gen(q.retval), 120) for q in full}))
         facts[ci.name] = f
+        # selection consistency: what is returned was recorded under the selection guard; on a
+        # path where the candidate of an iteration is rejected, the result must not be built
+        # from that candidate (a loop-local left over from the last iteration)
+        leaks = []
+        n_rej = 0
+        for q in full:
+            rejected = any(e.kind == 'assume' and e.data[1] is False and
+                           mentions(e.data[0], lambda x: x[0] == 'cmp' and x[1] == '<')
+                           for e in q.events)
+            taken = any(e.kind == 'assume' and e.data[1] is True and
+                        mentions(e.data[0], lambda x: x[0] == 'cmp' and x[1] == '<')
+                        for e in q.events)
+            if rejected and not taken:
+                n_rej += 1
+                if any(x[0] == 'elem' for x in subterms(q.retval)):
+                    leaks.append(q.retval)
+        if n_rej == 0:
+            raise AnalysisError(f'{ci.name}._integer_approximation: no path rejects a candidate')
+        ctx.ob('R14c', f'{ci.name}._integer_approximation returns the selected candidate',
+               not leaks, 'nothing of a rejected candidate reaches the result' if not leaks
+               else f'on the path where the candidate is rejected the result is still built '
+               f'from it ({short(leaks[0], 120)}): scale and shift come from different '
+               f'candidates (the scale of the last shift examined with the best shift), so '
+               f'the layer re-quantises with a factor that does not approximate '
+               f's_w*s_x/s_y and the 32-bit bound checked for the selected pair does not '
+               f'hold for the returned one', where(fn))
     ref_name = sorted(facts)[0]
     ref = facts[ref_name]
     expected = {'upper_bound': 'two**(scale_bits - 1)', 'target': 's_w*s_x/s_y'}
